@@ -64,6 +64,14 @@ def compare(ctx, rule, key, Q, R, where, what, definite=True):
         Dr = poly.witness(add(Q, R, -1))
     except (poly.TooBig, poly.NoRule, ZeroDivisionError) as ex:
         raise AnalysisBroken('%s %s: normal form not computable (%r)' % (rule, key, ex))
+    if Dr:
+        # second chance: function atoms (sqrt, pow, exp, log) whose arguments are the same rational function written differently
+        try:
+            D2 = poly.witness(poly.merge_equal_atoms(add(Q, R, -1)))
+            if not D2:
+                Dr = D2
+        except (poly.TooBig, poly.NoRule, ZeroDivisionError, ValueError, RecursionError):
+            pass
     if not Dr:
         ctx.ob(rule, key, True, where, sample='%s: code == oracle (%d monomials)' % (what, len(Q)))
         return True
